@@ -91,6 +91,9 @@ func Truthy(v Val) bool {
 
 // DeepEqual compares two host values exactly: same Go types, NaN equals NaN
 // when nanEq is set, lists element-wise, maps key-wise. Depth is bounded.
+// DeepEqual compares two values. nanEq selects identity (NaN equals NaN,
+// -0.0 differs from 0.0: what a monitor compares observations with) as
+// opposed to the language's numeric equality.
 func DeepEqual(a, b any, nanEq bool) bool { return deepEq(a, b, nanEq, 0) }
 
 func deepEq(a, b any, nanEq bool, d int) bool {
@@ -113,6 +116,12 @@ func deepEq(a, b any, nanEq bool, d int) bool {
 		}
 		if nanEq && math.IsNaN(x) && math.IsNaN(y) {
 			return true
+		}
+		if nanEq {
+			// identity (monitor comparisons): -0.0 and 0.0 are different
+			// values, they print and divide differently. The language's own
+			// == and `in` (nanEq false) are numeric: -0.0 == 0.0.
+			return x == y && math.Signbit(x) == math.Signbit(y)
 		}
 		return x == y
 	case string:
